@@ -316,6 +316,9 @@ impl Ctx {
 			self.samples.push(j);
 		}
 	}
+	pub fn sample_count(&self) -> usize {
+		self.samples.len()
+	}
 	pub fn want_sample(&self) -> bool {
 		self.samples.len() < 6
 	}
